@@ -15,7 +15,7 @@ def make(prop):
                 'code_objects': CLOCK.ncode}
 
     def gen(st, index, job):
-        return streamsim.gen_case(st, prop)
+        return streamsim.gen_case(st, prop, index)
 
     def run(case):
         try:
